@@ -1,22 +1,15 @@
 #!/usr/bin/env python3
-"""Scripted squid helper for the C46/C47 end-to-end checks (trusted lab stub, not part of the model).
-
-  helper_authhelper.py script <dir>
-      url_rewrite_program / external_acl_type helper. The scenario id is taken from the first request line
-      (.../h47x<sid>x/...); <dir>/<sid>.json holds the script: a list of steps
-         ["wait", k]      block until k request lines have been received in total
-         ["w", "<hex>"]   write exactly these bytes to stdout with ONE write(2)
-         ["sleep", s]     sleep s seconds
-      After the last step the helper exits (squid then starts a fresh process - channel ids restart at 1 - for the
-      next scenario). Every received line and every write is appended to <dir>/<sid>.log.
+"""Basic-auth helper for the C46 end-to-end check (trusted lab stub, not part of the model).
 
   helper_authhelper.py auth <dir>
       auth_param basic program (concurrent protocol: "<id> <user> <password>"). Passwords starting with "ok" are
       accepted, all others rejected. Every lookup is appended to <dir>/auth.log as `recv <seq> <user> <password>`
       and answered only when the driver creates the file <dir>/rel.<seq> (so the check decides the order of
       arrivals and helper replies itself, without depending on timing).
+
+The url_rewrite / external ACL helper of C47 is lab/helper_authhelper.c.
 """
-import heapq, json, os, re, select, sys, time
+import os, select, sys, time
 
 
 def log(path, msg):
@@ -45,54 +38,6 @@ class LineReader:
             l, self.buf = self.buf.split(b"\n", 1)
             return l
         return None
-
-
-def run_script(d):
-    rd = LineReader()
-    got = []
-    steps = None
-    logp = os.path.join(d, "early.log")
-    i = 0
-    deadline = time.time() + 30
-    while time.time() < deadline:
-        if steps is not None and i >= len(steps):
-            break
-        if steps is not None:
-            st = steps[i]
-            if st[0] == "w":
-                data = bytes.fromhex(st[1])
-                os.write(1, data)
-                log(logp, "write %s" % st[1])
-                i += 1
-                continue
-            if st[0] == "sleep":
-                time.sleep(st[1])
-                i += 1
-                continue
-            if st[0] == "wait" and len(got) >= st[1]:
-                i += 1
-                continue
-        # need more input
-        l = rd.pop()
-        if l is None:
-            if rd.eof:
-                log(logp, "eof")
-                return
-            rd.fill(0.5)
-            continue
-        got.append(l)
-        if steps is None:
-            m = re.search(rb"h47x(\w+?)x", l)
-            if m:
-                sid = m.group(1).decode()
-                logp = os.path.join(d, sid + ".log")
-                try:
-                    steps = json.load(open(os.path.join(d, sid + ".json")))
-                except Exception as ex:
-                    log(logp, "no script: %r" % ex)
-                    steps = []
-        log(logp, "recv %s" % l.decode("latin1"))
-    log(logp, "exit")
 
 
 def run_auth(d):
@@ -132,17 +77,7 @@ def run_auth(d):
 
 def main():
     mode, d = sys.argv[1], sys.argv[2]
-    if mode == "script":
-        # tells the driver that a fresh helper process (channel ids restart at 1) is ready
-        try:
-            open(os.path.join(d, "started.%d" % os.getpid()), "w").close()
-        except OSError:
-            pass
-        try:
-            run_script(d)
-        except BrokenPipeError:
-            pass
-    elif mode == "auth":
+    if mode == "auth":
         run_auth(d)
 
 
